@@ -44,6 +44,7 @@ ANCHORS = [
     ("deepali.core._kornia", "quaternion_to_rotation_matrix"),
     ("deepali.core.grid", "Grid.apply_transform"),
     ("deepali.spatial.transformer", "ImageTransformer.forward"),
+    ("deepali.spatial.transformer", "PointSetTransformer.forward"),
     ("deepali.modules.sample", "SampleImage.forward"),
     ("deepali.spatial.composite", "CompositeTransform.disp"),
     ("deepali.spatial.base", "SpatialTransform.disp"),
@@ -54,7 +55,7 @@ BUDGET = {"quick": 600, "thorough": 5400}
 
 
 def catalogue():
-    names = [f"transform/{n}/{v}" for n in X.ALL for v in ("forward", "inverse", "disp", "disp_resized", "disp_other", "points_world", "warp_image")]
+    names = [f"transform/{n}/{v}" for n in X.ALL for v in ("forward", "inverse", "disp", "disp_resized", "disp_other", "points_world", "warp_image", "warp_other_grids", "pointset_transformer")]
     names += [f"fn/{n}" for n in FUNCS] + [f"loss/{n}" for n in LOSSES]
     return names
 
@@ -77,11 +78,11 @@ def plan(tier, seed):
 
 
 def mandatory(tier):
-    return ["conclusive_directions", "float64_ops", "float32_ops", "steps/f64", "steps/f32"] + [f"family/{f}" for f in ("transform", "fn", "loss")]
+    return ["conclusive_directions", "float64_ops", "float32_ops", "steps/f64", "steps/f32", "second_step"] + [f"family/{f}" for f in ("transform", "fn", "loss")]
 
 
 # ------------------------------------------------------------------------------------------------
-def gradcheck(ctx, name, params, evaluate, info, n_dirs=6, f32=False):
+def gradcheck(ctx, name, params, evaluate, info, n_dirs=6, f32=False, key_suffix=""):
     r"""Compare autograd directional derivatives of a scalarised output with central differences.
 
     ``params``: leaf tensors (requires_grad) that ``evaluate()`` depends on and that may be perturbed in place.
@@ -109,14 +110,14 @@ def gradcheck(ctx, name, params, evaluate, info, n_dirs=6, f32=False):
         return (o * w).sum()
 
     s = (out * w).sum()
-    ok = ctx.true("output_requires_grad", bool(s.requires_grad), key=f"grad/{name}/no_graph", sites=gp.sites(), **info)
+    ok = ctx.true("output_requires_grad", bool(s.requires_grad), key=f"grad/{name}/no_graph{key_suffix}", sites=gp.sites(), **info)
     if not ok:
         return
     grads = torch.autograd.grad(s, params, allow_unused=True)
     for i, g in enumerate(grads):
-        if not ctx.true("gradient_exists", g is not None, key=f"grad/{name}/missing", param=i, sites=gp.sites(), **info):
+        if not ctx.true("gradient_exists", g is not None, key=f"grad/{name}/missing{key_suffix}", param=i, sites=gp.sites(), **info):
             return
-        if not ctx.true("gradient_finite", bool(torch.isfinite(g).all()), key=f"grad/{name}/nonfinite", param=i, **info):
+        if not ctx.true("gradient_finite", bool(torch.isfinite(g).all()), key=f"grad/{name}/nonfinite{key_suffix}", param=i, **info):
             return
     # step ladder: float64 steps first; a path that casts to float32 internally is noisy at h=1e-6 and is then
     # decided with float32 steps and tolerance (the quantifier allows "float32 with matching step sizes")
@@ -168,11 +169,11 @@ def gradcheck(ctx, name, params, evaluate, info, n_dirs=6, f32=False):
                 ctx.count(f"float32_steps_on_float64_output/{name}")
             if abs(f2) > 1e-6 * ref or abs(dd) > 1e-6 * ref:
                 nonzero = True
-            ctx.close("directional_derivative_equals_finite_difference", dd, f2, rtol * ref + atol + 3 * abs(f1 - f2) + noise, key=f"grad/{name}/mismatch", fd_h=f1, fd_h2=f2, autograd=dd, steps=tag, noise=noise, sites=gp.sites(), **info)
+            ctx.close("directional_derivative_equals_finite_difference", dd, f2, rtol * ref + atol + 3 * abs(f1 - f2) + noise, key=f"grad/{name}/mismatch{key_suffix}", fd_h=f1, fd_h2=f2, autograd=dd, steps=tag, noise=noise, sites=gp.sites(), **info)
             break
         if not decided:
             ctx.count("inconclusive_directions")
-    if conclusive < max(3, n_dirs // 2):
+    if conclusive < min(n_dirs, max(3, n_dirs // 2)):
         ctx.count("inconclusive_cases")
         ctx.count(f"inconclusive_case/{name}")
     if nonzero:
@@ -217,7 +218,9 @@ def transform_op(ctx, name, rep, info):
     need_ac = "FreeForm" in cls
     gp = gen.rand_grid_params(rng, D, max_size=9 if D == 2 else 6, min_size=6 if D == 2 else 5, big_offset=False, align_corners=True if need_ac else None)
     g = gen.make_grid(gp)
-    t, _ = X.make(rng, cls, g, groups=1, kind="parameter", amplitude=0.7, dtype=torch.float64)
+    groups = 2 if rep % 4 == 3 else 1
+    info = dict(info, D=D, groups=groups)
+    t, _ = X.make(rng, cls, g, groups=groups, kind="parameter", amplitude=0.7, dtype=torch.float64)
     params = [p for p in t.parameters() if p.requires_grad]
     if cls in X.NONRIGID:  # generic values: nothing vanishes on the boundary, no sample lands on a grid line
         with torch.no_grad():
@@ -225,7 +228,7 @@ def transform_op(ctx, name, rep, info):
                 unit = 2.0 / float(min(g.size()))
                 p.add_(torch.tensor(unit * (rng.uniform(0.15, 0.3) + 0.05 * rng.normal(size=tuple(p.shape))), dtype=p.dtype))
         t.update()
-    x = t64(rng.uniform(-0.7, 0.7, size=(1, 7, D)))
+    x = t64(rng.uniform(-0.7, 0.7, size=(groups, 7, D)))
     if variant == "forward":
         ev = lambda: t(x)  # noqa: E731
     elif variant == "inverse":
@@ -250,14 +253,31 @@ def transform_op(ctx, name, rep, info):
         info = dict(info, other_grid=p2)
     elif variant == "points_world":
         ref = gen.ref_of_grid(g)
-        W = t64(ref.points(x[0].numpy(), "cube_corners" if g.align_corners() else "cube", "world")[None])
+        W = t64(np.stack([ref.points(x[i].numpy(), "cube_corners" if g.align_corners() else "cube", "world") for i in range(groups)]))
         ev = lambda: t.update().points(W, axes=Axes.WORLD)  # noqa: E731
     elif variant == "warp_image":
-        img = t64(rng.uniform(0, 1, size=(1, 2) + tuple(g.shape)))
+        img = t64(rng.uniform(0, 1, size=(groups, 2) + tuple(g.shape)))
         for _ in range(D):  # smooth image: gradients w.r.t. parameters are informative
             img = (img + img.roll(1, -1) + img.roll(-1, -1)) / 3
         warp = S.ImageTransformer(t).double()
         ev = lambda: warp(img)  # noqa: E731
+    elif variant in ("warp_other_grids", "pointset_transformer"):
+        ref = gen.ref_of_grid(g)
+        ext = ref.s * ref.n
+        grids = []
+        for _ in range(2):  # target and source grids inside the transform domain, own orientation and spacing
+            p2 = gen.rand_grid_params(rng, D, max_size=7 if D == 2 else 5, min_size=4, big_offset=False, route="center")
+            p2["center"] = gen.f32(ref.c + rng.normal(size=D) * 0.04 * ext).tolist()
+            p2["spacing"] = gen.f32(ext * rng.uniform(0.5, 0.7, size=D) / np.asarray(p2["size"], dtype=float)).tolist()
+            grids.append(gen.make_grid(p2))
+        tgt, src = grids
+        if variant == "warp_other_grids":
+            img = smooth_img(rng, (groups, 2) + tuple(src.shape))
+            warp = S.ImageTransformer(t, target=tgt, source=src).double()
+            ev = lambda: warp(img)  # noqa: E731
+        else:
+            pst = S.PointSetTransformer(t, grid=tgt, axes=Axes.CUBE, to_grid=src, to_axes=Axes.WORLD).double()
+            ev = lambda: pst(x)  # noqa: E731
     else:
         raise ValueError(variant)
     sub = S.SequentialTransform(t) if variant == "disp_other" and rep % 2 else None
@@ -265,6 +285,13 @@ def transform_op(ctx, name, rep, info):
         ev = lambda: sub.update().disp(g2)  # noqa: E731
         name = name + "/composite"
     gradcheck(ctx, name, params, ev, info)
+    # second optimisation step: parameters changed in place (as an optimiser does), buffers must be recomputed
+    # from them and the new graph must be differentiable again
+    with torch.no_grad():
+        for p in params:
+            p.add_(torch.tensor(rng.normal(size=tuple(p.shape)) * 0.02 * (float(p.abs().max()) + 0.05), dtype=p.dtype))
+    ctx.bucket("second_step")
+    gradcheck(ctx, name, params, ev, dict(info, step="second"), n_dirs=2, key_suffix="/second_step")
 
 
 def generic_field(rng, shape, align_corners, amplitude):
